@@ -7,6 +7,7 @@
   addresses a distinct slot for every date.
 -/
 import FinVerif.Gen.DateK
+import FinVerif.Props.C13
 import Mathlib.Data.Rat.Floor
 import Mathlib.Tactic.Ring
 import Mathlib.Tactic.Linarith
@@ -81,5 +82,54 @@ theorem date_index_injective (d m y d' m' y' : Int) (hd : 1 ≤ d ∧ d ≤ 31) 
 
 /-- Non-vacuity: 29 Feb 2024 sits in slot 46187 and maps back. -/
 example : date_index 29 2 2024 = 46187 ∧ date_from_index 46187 = (29, 2, 2024) := by decide +kernel
+
+end FinVerif.Props.C13
+
+/-! ### equality / hashing agree with the calendar: the serial is injective on valid dates -/
+
+namespace FinVerif.Props.C13
+open FinVerif FinVerif.Spec
+
+/-- C13: two valid dates with the same serial are the same calendar date — so `==`, `hash` and ordering, all defined
+through the serial in the code, agree with calendar equality. -/
+theorem serial_injective (d m y d' m' y' : Int) (hv : Valid d m y) (hv' : Valid d' m' y')
+    (h : serial d m y = serial d' m' y') : d = d' ∧ m = m' ∧ y = y' := by
+  have hy : y = y' := by
+    rcases lt_trichotomy y y' with hlt | heq | hgt
+    · have := serial_lt_of_year_lt d d' m m' y y' hv hv' hlt; omega
+    · exact heq
+    · have := serial_lt_of_year_lt d' d m' m y' y hv' hv hgt; omega
+  subst hy
+  have hm : m = m' := by
+    rcases lt_trichotomy m m' with hlt | heq | hgt
+    · have := serial_lt_of_month_lt d d' m m' y hv hv' hlt; omega
+    · exact heq
+    · have := serial_lt_of_month_lt d' d m' m y hv' hv hgt; omega
+  subst hm
+  have hd : d = d' := by
+    rcases lt_trichotomy d d' with hlt | heq | hgt
+    · have := serial_lt_of_day_lt d d' m y hlt; omega
+    · exact heq
+    · have := serial_lt_of_day_lt d' d m y hgt; omega
+  exact ⟨hd, rfl, rfl⟩
+
+/-- … and the order of serials is the lexicographic order of (year, month, day). -/
+theorem serial_lt_iff_lex (d m y d' m' y' : Int) (hv : Valid d m y) (hv' : Valid d' m' y') :
+    serial d m y < serial d' m' y' ↔ (y < y' ∨ (y = y' ∧ (m < m' ∨ (m = m' ∧ d < d')))) := by
+  constructor
+  · intro h
+    by_contra hc
+    have hc' : y' < y ∨ (y' = y ∧ (m' < m ∨ (m' = m ∧ d' ≤ d))) := by omega
+    rcases hc' with h1 | ⟨h1, h2 | ⟨h2, h3⟩⟩
+    · have := serial_lt_of_year_lt d' d m' m y' y hv' hv h1; omega
+    · subst h1; have := serial_lt_of_month_lt d' d m' m y' hv' hv h2; omega
+    · subst h1; subst h2
+      rcases Int.lt_or_eq_of_le h3 with h4 | h4
+      · have := serial_lt_of_day_lt d' d m' y' h4; omega
+      · subst h4; omega
+  · rintro (h1 | ⟨h1, h2 | ⟨h2, h3⟩⟩)
+    · exact serial_lt_of_year_lt d d' m m' y y' hv hv' h1
+    · subst h1; exact serial_lt_of_month_lt d d' m m' y hv hv' h2
+    · subst h1; subst h2; exact serial_lt_of_day_lt d d' m y h3
 
 end FinVerif.Props.C13
